@@ -461,6 +461,22 @@ func init() {
 				Run: func(c *core.Ctx, i int) {
 					judgeProgram(c, shared[i].prog, shared[i].data, "shared-value-cond", false)
 				}})
+			// (5e) integer literals written with leading zeros are decimal numbers in every condition
+			zeroConds := []struct{ src, want string }{
+				{"@if(08)y@else n@end", "y"}, {"@if(00)y@else n@end", " n"}, {"{{ 09 ? \"t\" : \"f\" }}", "t"}, {"@if(true)first@elseif(m == 08)second@end", "first"},
+				{"@if(m == 010)Oct@elseif(m == 8)Aug@else ?@end", "Oct"}, {"@if(m == 8)Aug@elseif(m == 010)Oct@end", "Oct"}, {"@each(v in [9, 10, 11]){{ v }}@breakIf(v == 010)@end", "910"},
+				{"@each(v in [8, 9, 10])@continueIf(v == 09){{ v }}@end", "810"}, {"@if(0100 == 100)y@end", "y"}, {"@if(010 - 10)y@else n@end", " n"}, {"{{ 007 == 7 ? 1 : 0 }}", "1"},
+			}
+			secs = append(secs, core.Section{Name: "leading-zero-conditions", Exhaustive: true, N: len(zeroConds),
+				Run: func(c *core.Ctx, i int) {
+					tc := zeroConds[i]
+					c.Input(tc.src)
+					got := evalString(c, tc.src, map[string]any{"m": 10})
+					c.Nontrivial(tc.src)
+					if !got.Panicked && (got.Err != nil || got.Out != tc.want) {
+						c.Violation("leading-zero-condition", fmt.Sprintf("%s gave %s, want %q", tc.src, got.Describe(), tc.want), map[string]any{"source": tc.src})
+					}
+				}})
 			// (6) seeded random nestings
 			n, depth := 6000, 4
 			if tier == core.Thorough {
